@@ -81,6 +81,7 @@ class Escape:
 
 class Interp:
     def __init__(self, prog: Program, f: FuncInfo, tag_key: str):
+        self.default_hooks = []
         self.prog = prog
         self.f = f
         self.mod = f.module
@@ -223,6 +224,10 @@ class Interp:
                 hook = self.prog.lookup(self.f.cls.qual, name)
                 if hook is not None and any(isinstance(x, ast.Raise) and "NotImplementedError" in src(x) for x in ast.walk(hook.node)) and (base & {"class_ser"}):
                     self.op(f"{src(f.value)}.{name}() default hook", c, base & {"class_ser"}, {"NotImplementedError": base & {"class_ser"}})
+                if hook is not None and (base & {"class_ser"}):
+                    # the named class may be the serialiser base itself or a subclass that inherits this default: if the default can return
+                    # (an empty body returns None) the reader hands out None as the deserialised object
+                    self.default_hooks.append((hook, c))
                 return None
             q = self.mod.resolve(f)
             if q == "ext:importlib.import_module" and c.args:
@@ -519,6 +524,16 @@ def js_escape(prog: Program) -> RuleResult:
             if key not in seen:
                 seen.add(key)
                 r.fail(key, site(f, e.node), src(e.node), f"{e.exc} escapes: tag without separator is not converted")
+    # the default hook of the serialiser base never returns normally: a class named by the tag that has no _from_json of its own would
+    # otherwise be "deserialised" into whatever the default returns (None for an empty body) - a wrongly typed object instead of an error
+    from ..cfg import CFG
+
+    for hook, c in {h.qual: (h, c) for h, c in it.default_hooks}.values():
+        cfg = CFG(hook.node)
+        can_return = cfg.exit in cfg.reachable(cfg.entry)
+        r.check(not can_return, f"{hook.short}#default-never-returns", site(hook), f"called as {src(c)[:60]}", "every path of the default raises",
+                f"{hook.short} can return normally (an empty or pass-only body returns None): from_json then answers a tag that names the serialiser base, or a subclass without its own "
+                f"{hook.name}, with None instead of ClassNotDeserializableError")
     # every explicit raise is a documented error
     jerr = it.json_err
     for q, s in it.raised_repo:
